@@ -44,6 +44,14 @@ CLAIMED = {
     text="coq/Gen/GFlags.v (flag table, level table, names) is regenerated from the current nmfu module on every run; over it Props/C19.v proves: order independence of resolution for override lists without duplicates (a real inductive proof, for any table satisfying the computed side condition meta_ok), implied flags on, exclusive flags never both on, explicit conflicts are errors, levels cumulative, overrides beat the level (finite facts by reflection over all 3^11 x 4 assignments, lifted to every order through the order theorem), and the tokeniser theorems (unknown flags/options, missing values, malformed -O / --flag values / dump targets are errors; run_cmdline never crashes). The hand model is compared with the real load_commandline_flags exhaustively on the 708 588 assignments (extracted OCaml) and on sampled permutations and malformed command lines (inside Coq).",
     note="Trusted: translator/tables2coq.py, the hand model's tie (exhaustive on the finite domain, sampled beyond), extraction for the exhaustive comparison (a sample re-evaluated by the kernel). Accepted spellings such as -O02 or --O 2 are recorded, not judged.",
     ref="5 C19"),
+ "C13": dict(cat="translation_validation", tech="Coq-verified strict bisimulation certificates between each macro program and its textual expansion",
+    text="Each generated program (composable macro templates covering all eight argument kinds, nesting, forwarding of arguments, parameters named like global entities and called with rotated names) is printed twice from one AST: with macros and hand-inlined by textual substitution (the specification). Both are compiled by the real compiler; the verdicts must agree and accepted pairs must carry a strict bisimulation certificate (Bisim.dfa_equiv_cert: identical behaviour on all inputs under every data semantics); a sample is certified inside Coq. Ill-kinded and wrong-arity calls must be diagnosed.",
+    note="Program quantifier sampled. The expansion function gen.subst_stmts is the trusted specification of a macro call. One genuine defect is a known finding (a late-bound argument passed on to a same-named parameter recurses).",
+    ref="5 C13"),
+ "C20": dict(cat="translation_validation", tech="Coq-verified strict bisimulation certificates between compilations of the same input under different process histories, heap layouts and hash seeds",
+    text="Each program (corpus, generated, greedy-case with near-ties, macro programs) is compiled alone in a fresh process, in-order / reversed / shuffled after other programs, twice in a row, under different PYTHONHASHSEEDs and heap perturbations. Verdicts must agree, and every resulting machine must carry a strict bisimulation certificate against the reference compilation, so that each comparison holds for all inputs.",
+    note="Partial: the quantifier over histories / layouts / seeds is sampled; CPython's process state cannot be modelled in Coq. Each machine comparison is a theorem (bisim_strict_sound).",
+    ref="5 C20"),
  "C15": dict(cat="proof", tech="Coq proof over translator-regenerated model (pylite2coq) + CPython correspondence",
     text="Universal theorems (all strings, all digit strings, all 256 bytes) about the CURRENT bodies of _convert_string, _convert_char_const, _convert_int, _create_casei_from and _escape_string, which a fail-closed translator regenerates from /repo/nmfu.py into Gallina on every run; the translated reading is compared with CPython on ~2 700 enumerated inputs per run. A broken proof triggers a search (spec evaluated against the regenerated functions inside Coq, then Python/gcc replay) for a concrete literal.",
     note="Trusted: Coq kernel (vm_compute), translator/pylite2coq.py, Base/PyLite.v's reading of Python, Lit/LitSpec.v (spelling relation, C string-literal lexer). _convert_binary_string is tied by correspondence only; lark tokenisation and gcc are modelled, not verified.",
